@@ -105,6 +105,9 @@ def o_roundtrip(case):
     nt, ns, three_d = case["towers"], case["steps"], case["three_d"]
     ny, nx, nzo = 4, 5, 3
     x, y, z = np.arange(nx) * 7.5, np.arange(ny) * 2.5, np.array([0.1, 1.7, 4.2])
+    if case.get("z_order") is not None:
+        # output levels requested top-down or in mixed order (output_levels = [8, 4, 1]): the solver returns Z in that order
+        z = z[np.array(case["z_order"])]
     pool = ["north", "east", "annex", "T10", "T9", "zeta", "Mast B", "mast a"]
     names = [str(x) for x in rng.permutation(pool)[:nt]]
     z0f = case["z0_forcing"]
@@ -215,8 +218,9 @@ def run(rng, tier, deep):
                     continue
                 run_oracle(st, o_roundtrip, dict(towers=nt, steps=ns, three_d=three_d, seed=int(rng.integers(1 << 30)),
                                                  str_ts=bool(rng.random() < 0.5), z0_forcing=bool(rng.random() < 0.4),
-                                                 mixed_dtype=bool(rng.random() < 0.5), dup_ts=bool(rng.random() < 0.35)))
+                                                 mixed_dtype=bool(rng.random() < 0.5), dup_ts=bool(rng.random() < 0.35),
+                                                 z_order=[int(v) for v in rng.permutation(3)] if (three_d and rng.random() < 0.6) else None))
     return finish(st, "result sets over towers 1..4 x steps 1..4 x 2-D/3-D, values from adversarial float64 bit patterns (+-0, denormals, +-1e308, the default "
-                  "netCDF fill value, negatives), string and integer timestamps (incl. a repeated label), ustar or z0 forcing, result sets mixing float32 and float64 entries; correspondence: which (tower, step) every dataset cell, label "
+                  "netCDF fill value, negatives), string and integer timestamps (incl. a repeated label), ustar or z0 forcing, result sets mixing float32 and float64 entries, 3-D outputs whose levels are not listed bottom-up; correspondence: which (tower, step) every dataset cell, label "
                   "and metadata slot holds, vs the Lean assembly model; oracle: bit-identical arrays, ds.sel by name and label, coordinates, metadata, NaN for "
                   "missing ustar", deep, 0)
